@@ -33,14 +33,14 @@ import (
 // C10: Elasticsearch / Docker probes - reported iff JSON info was served; time-bounded.
 
 type c10Resp struct {
-	Stall   bool   `json:"stall_before_headers,omitempty"` // never answer
-	CloseNow bool  `json:"close_without_answer,omitempty"`
-	Reset   bool   `json:"reset_instead_of_close,omitempty"`
-	Status  int    `json:"status"`
-	Framing string `json:"framing"` // length | chunked | close
-	Kind    string `json:"body_kind"` // object array string number bool null truncated nonjson empty huge endless
-	Body    string `json:"body"`
-	MidStall bool  `json:"stall_in_the_middle_of_the_body,omitempty"`
+	Stall      bool   `json:"stall_before_headers,omitempty"` // never answer
+	CloseNow   bool   `json:"close_without_answer,omitempty"`
+	Reset      bool   `json:"reset_instead_of_close,omitempty"`
+	Status     int    `json:"status"`
+	Framing    string `json:"framing"`   // length | chunked | close
+	Kind       string `json:"body_kind"` // object array string number bool null truncated nonjson empty huge endless
+	Body       string `json:"body"`
+	MidStall   bool   `json:"stall_in_the_middle_of_the_body,omitempty"`
 	APIVersion string `json:"api_version_header,omitempty"`
 }
 
@@ -55,13 +55,13 @@ func (r c10Resp) objectDelivered() bool {
 func (r c10Resp) hangs() bool { return r.Stall || r.MidStall || r.Kind == "endless" }
 
 type c10Case struct {
-	Scan    string   `json:"scan"`  // elastic | docker
-	Proto   string   `json:"proto"` // http | https
-	Primary c10Resp  `json:"primary"`   // elastic: GET / ; docker: GET /v*/info
-	Second  c10Resp  `json:"secondary"` // elastic: GET /_aliases ; docker: GET /v*/version
-	Ping    c10Resp  `json:"docker_ping"`
-	TimeoutMs int    `json:"timeout_ms"`
-	IP      [4]byte  `json:"ip"`
+	Scan      string  `json:"scan"`      // elastic | docker
+	Proto     string  `json:"proto"`     // http | https
+	Primary   c10Resp `json:"primary"`   // elastic: GET / ; docker: GET /v*/info
+	Second    c10Resp `json:"secondary"` // elastic: GET /_aliases ; docker: GET /v*/version
+	Ping      c10Resp `json:"docker_ping"`
+	TimeoutMs int     `json:"timeout_ms"`
+	IP        [4]byte `json:"ip"`
 }
 
 // ---- scripted server
@@ -537,10 +537,10 @@ func TestC10KnownDockerNull(t *testing.T) {
 // ---------------------------------------------------------------- the commands' own wiring of --proto and --timeout
 
 type c10CmdCase struct {
-	Scan      string `json:"scan"`
-	Proto     string `json:"proto"`
-	Stall     bool   `json:"primary_request_stalls"`
-	TimeoutMs int    `json:"timeout_ms"`
+	Scan      string  `json:"scan"`
+	Proto     string  `json:"proto"`
+	Stall     bool    `json:"primary_request_stalls"`
+	TimeoutMs int     `json:"timeout_ms"`
 	IP        [4]byte `json:"ip"`
 }
 
